@@ -27,10 +27,21 @@ def run(ctx):
                 "cluster id, empty eBGP AS_PATH, OTC from customer/RS-client, foreign OTC from peer, OTC added from provider/peer/RS) x "
                 "policy flips reject-all <-> accept <-> rewrite x late registration of the Loc-RIB and of a second consumer, for eBGP, "
                 "iBGP, add-path and all 5 remote roles; plus seeded random behaviours; non-trivial = an ineligible bundle is stored at "
-                "some step while a consumer is registered")
+                "some step while a consumer is registered. Server level: BGPFSM behaviours with an UPDATE whose AS_PATH contains the local "
+                "AS, import policy flips and session resets, alone and next to a second established session of the same VRF")
     inel = {"loop", "oid", "clus", "empty", "otcP", "otcX"}
 
     def nt(b):
         return any(any(e["b"] in inel for e in s["st"]["adjin"]) and any(s["st"]["reg"].values()) for s in b[1:])
+    # server level: an UPDATE whose AS_PATH contains the local AS on a real session, alone and with a second session of the same
+    # VRF established throughout (the VRF's loop-detection state is shared and reference counted), across session resets
+    sc_spec = importlib.util.spec_from_file_location("sc", os.path.join(os.path.dirname(__file__), "session_common.py"))
+    sc = importlib.util.module_from_spec(sc_spec); sc_spec.loader.exec_module(sc)
+    sb = []
+    for cfg in ("ebgp", "ebgp2", "ibgp"):
+        c = sc.consts(cfg, {"ok"}, {"annA", "annLoop"}, set(), {"Notification"}, 8 if big else 7, sessions=2, pols={"accept", "reject"})
+        sb += sc.run_family(ctx, "server-level loop detection " + cfg, c, 4000 if big else 400, design=(cfg == "ebgp2"))
+    ctx.replay("session", sb, per_timeout=90, shards=16,
+               nontrivial=lambda b: any(s["a"] == "RecvUpdate" and s.get("u") == "annLoop" and s["s"]["st"] == "Established" for s in b))
     rc.ribin_runs(ctx, runs, sims, ("v4o8", "v6o60") if not big else ("v4o0", "v4o28", "v6o30", "v6o124"), nt,
                   40000 if big else 3500)
